@@ -10,6 +10,7 @@ import (
 	sdkerrors "github.com/cosmos/cosmos-sdk/types/errors"
 	stakingtypes "github.com/cosmos/cosmos-sdk/x/staking/types"
 
+	errorsmod "cosmossdk.io/errors"
 	sdkmath "cosmossdk.io/math"
 
 	"github.com/strangelove-ventures/poa"
@@ -134,6 +135,33 @@ func (k Keeper) SetPOAPower(ctx context.Context, valOpBech32 string, newShares i
 	}
 
 	return val, nil
+}
+
+// ensureActiveValidator returns an error unless the validator exists, is bonded and is not jailed.
+// SetPOAPower forces the validator to the bonded status, which is only sound for a validator that is in the
+// active set: a jailed validator must stay out until it is unjailed, and an unbonding one (removed, jailed or
+// displaced earlier) still sits in x/staking's unbonding queue, which fails the block at maturity if the
+// validator has been bonded behind its back.
+func (k Keeper) ensureActiveValidator(ctx context.Context, valOpBech32 string) error {
+	valAddr, err := sdk.ValAddressFromBech32(valOpBech32)
+	if err != nil {
+		return err
+	}
+
+	val, err := k.stakingKeeper.GetValidator(ctx, valAddr)
+	if err != nil {
+		return err
+	}
+
+	if val.Jailed {
+		return errorsmod.Wrapf(stakingtypes.ErrValidatorJailed, "cannot set the power of jailed validator %s", valOpBech32)
+	}
+
+	if !val.IsBonded() {
+		return errorsmod.Wrapf(sdkerrors.ErrInvalidRequest, "validator %s is not bonded", valOpBech32)
+	}
+
+	return nil
 }
 
 // AcceptNewValidator accepts a new validator and pushes them into the actives set.
